@@ -232,4 +232,28 @@ Section FLh.
     - intros cur cont. apply wc_unfold.
     - intros cur ty0. apply cmp_unfold.
   Qed.
+
+  (* ---------- assembly: every term, every fuel bound ---------- *)
+  Theorem fl_all : forall N t, flw p cp N t /\ flc p cp N t.
+  Proof.
+    induction N as [N IHN] using lt_wf_ind.
+    assert (IHw : forall N', (N' < N)%nat -> forall t, flw p cp N' t).
+    { intros N' HN t. apply (IHN N' HN t). }
+    induction t using fterm_ind'.
+    - apply fl_var; assumption.
+    - apply fl_lit; assumption.
+    - apply fl_op; tauto.
+    - apply fl_ifc; try tauto. destruct b as [b'|]; [simpl in H; tauto | exact I].
+    - apply fl_print; tauto.
+    - apply fl_let; tauto.
+    - apply fl_call; try assumption. eapply Forall_impl; [|exact H]. intros a [_ Ha]. exact Ha.
+    - apply fl_ctor; try assumption. eapply Forall_impl; [|exact H]. intros a [_ Ha]. exact Ha.
+    - split; intros n Hn; intros; discriminate.
+    - apply fl_case; try assumption; [tauto|]. eapply Forall_impl; [|exact H]. intros a [Ha _]. exact Ha.
+    - split; intros n Hn; intros; discriminate.
+    - apply fl_label; tauto.
+    - apply fl_goto; tauto.
+    - apply fl_exit; tauto.
+    - apply fl_paren; tauto.
+  Qed.
 End FLh.
